@@ -415,7 +415,10 @@ def inline_call(raw, bidx, iidx, graw):
             nb["insts"].append(ni)
         newblocks.append(nb)
     cont = {"id": cont_id, "name": "inl.cont." + graw["name"], "succ": list(B["succ"]), "insts": []}
-    if call.get("ty") not in (None, "void") and rets:
+    single = None
+    if call.get("ty") not in (None, "void") and len(rets) == 1 and rets[0][1] is not None:
+        single = rets[0][1]           # one return: the call's users read the returned value directly (no phi)
+    elif call.get("ty") not in (None, "void") and rets:
         cont["insts"].append({"id": call["id"], "op": "phi", "ty": call.get("ty"), "file": call.get("file"), "line": call.get("line"),
                               "incoming": [{"b": b, "v": v} for (b, v) in rets if v is not None], "inlined_from": graw["name"]})
     cont["insts"] += B["insts"][iidx + 1:]
@@ -434,6 +437,25 @@ def inline_call(raw, bidx, iidx, graw):
     # a phi inside the continuation that names B (self loop through B) cannot exist: B's tail moved as a whole
     blocks.extend(newblocks)
     blocks.append(cont)
+    if single is not None:
+        cid = call["id"]
+
+        def sub(r):
+            if isinstance(r, dict):
+                if r.get("k") == "i" and r.get("id") == cid:
+                    return copy.deepcopy(single)
+                if r.get("k") == "ce":
+                    o = dict(r)
+                    o["ops"] = [sub(x) for x in r.get("ops", [])]
+                    return o
+            return r
+        for b in blocks:
+            for i in b["insts"]:
+                if "ops" in i:
+                    i["ops"] = [sub(o) for o in i["ops"]]
+                if i.get("incoming"):
+                    for x in i["incoming"]:
+                        x["v"] = sub(x["v"])
 
 
 def inline_new_helpers(M, max_blocks=60, budget=64):
@@ -475,6 +497,26 @@ def inline_new_helpers(M, max_blocks=60, budget=64):
                     break
         if n:
             M.functions[f["name"]] = Function(f, M)
+    # helpers whose every call site was inlined are dead: drop them so that whole-module scans (who calls X) see
+    # each call once, in the function it now belongs to
+    if done:
+        inlined_names = {g for (_f, g) in done}
+        still = set()
+        for f in M.raw["functions"]:
+            if f.get("decl"):
+                continue
+            for b in f["blocks"]:
+                for i in b["insts"]:
+                    if i["op"] == "call" and i.get("callee") in inlined_names and f["name"] != i.get("callee"):
+                        still.add(i["callee"])
+                    for o in i.get("ops", []):
+                        if isinstance(o, dict) and o.get("k") == "g" and o.get("name") in inlined_names and i["op"] != "call":
+                            still.add(o["name"])       # address taken
+        dead = inlined_names - still
+        # a dead helper may itself reference other inlined helpers: iterate once more
+        M.raw["functions"] = [f for f in M.raw["functions"] if f["name"] not in dead]
+        for n in dead:
+            M.functions.pop(n, None)
     M.inlined = done
     return done
 
